@@ -118,6 +118,22 @@ def build_node(
     if not callable(process_method):
         raise RunMethodExpectedError('Missing method for node execution')
 
+    # The new class gets a new run method that carries only the annotations of target_dependencies. A generic
+    # input of the basic node that is not redefined would vanish silently and never be supplied.
+    from ml_pipeline_engine.dag_builders.annotation.errors import NonRedefinedGenericTypeError  # noqa: PLC0415
+    from ml_pipeline_engine.dag_builders.annotation.marks import GenericInputMark  # noqa: PLC0415
+    from ml_pipeline_engine.dag_builders.annotation.marks import InputGenericMark  # noqa: PLC0415
+
+    for param_name, annotation in getattr(process_method, '__annotations__', {}).items():
+        if (
+            isinstance(annotation, (InputGenericMark, GenericInputMark))
+            and param_name not in target_dependencies
+            and param_name not in (dependencies_default or {})
+        ):
+            raise NonRedefinedGenericTypeError(
+                f'The generic input is not redefined for the target graph. param_name={param_name}, node={node}',
+            )
+
     if inspect.iscoroutinefunction(process_method):
         async def class_method(*args: t.Any, **kwargs: t.Any) -> t.Any:
             return await process_method(*args, **kwargs, **(dependencies_default or {}))
